@@ -242,7 +242,7 @@ package terminal
 //@ loop 1 (i int)
 //@   invariant 0 <= i && i <= len(b)
 //@   ghost_entry GhostUnq = ""
-//@   ghost_at call#2 when lastres[error](3) == nil :: GhostUnq = GhostUnq + string(lastres[rune](0))
+//@   ghost_at call:UnquoteChar#1 when lastres[error](3) == nil :: GhostUnq = GhostUnq + string(lastres[rune](0))
 //@ loop 2 (str string, res []byte, i int)
 //@   invariant 0 <= i && i <= len(b) && len(str) <= len(b) - i && len(res) <= len(b) - len(str) && fresh(res)
 //@   invariant [codepoints;C08] strof(res) == strof(b[0:i]) + GhostUnq
